@@ -9,7 +9,7 @@ model  = Model.C04Model (iter_CUs/iter_TUs, iter_DIEs, iter_children, get_parent
 impl   = DWARFInfo built directly over BytesIO sections."""
 import io
 
-CLAIMED = False
+CLAIMED = True
 CONFIG = {'assumptions': [
     'DWARFInfo is built directly over BytesIO sections (DebugSectionDescriptor), one stream per section; all ten '
     'sections are present; no supplementary DWARF object',
@@ -20,18 +20,22 @@ CONFIG = {'assumptions': [
     'codes per table, a present DW_AT_sibling designates the true next sibling in a reference form, index forms '
     'resolvable (base attribute in the root entry, index inside the table), references designate an entry',
     'the DIE/CU caches are modelled by recomputation (their transparency is C10)']}
-LEVEL = {'text': 'Machine-checked theorems over all well-formed units: the live Dwarf_dw_form table equals the form table of '
-                 'the standard in all 32 configurations; unit header (v2-v5, six v5 kinds, v4 type unit) and abbreviation '
-                 'table round trips; sequential entry parsing over the encoder output yields exactly the pre-order entry '
-                 'list (offset, size, code, tag, child flag, attributes with name, final form, raw value, offset, '
-                 'indirection length; indirect chains of any length); offsets are prefix sums and the last entry ends at '
-                 'unit_length + initial length size.  Tree walk (children/parent/terminators), reference resolution and '
-                 'multi-unit tiling: see Props/C04.v for what is proved and what is _partial.  The model is tied to the code by '
-                 'the regenerated Gen tables and by a differential correspondence on random unit sequences.',
+LEVEL = {'text': 'Machine-checked theorems (Props/C04.v, all closed): the live Dwarf_dw_form table equals the form table of '
+                 'the standard in all 32 configurations, form/unit-type/abbreviation structs and name dicts as the standard; '
+                 'unit header round trips (v2-v4 CU, six v5 kinds, v4 type unit; any offset, any tail) and abbreviation table '
+                 'round trip + lookup (any valid LEB128 encodings, arbitrary codes, unknown numbers, implicit_const); every '
+                 'operand class and DW_FORM_indirect chains of any length; one entry at any offset = expected offset, size, '
+                 'code, tag, child flag, attributes (name, final form, raw value, offset, indirection length); for every '
+                 'well-formed unit placed anywhere, parsing at each successive offset yields exactly the pre-order entry list '
+                 '(dies_flat_exact); entries tile the unit from cu_die_offset to unit_length + initial-length size; several '
+                 'units of mixed parameters are found at the running sums (iter_CUs / iter_TUs).  See LEVEL note for what is '
+                 '_partial.  The model is tied to the code by the regenerated Gen tables and by a differential correspondence '
+                 'on random unit sequences.',
          'design_ref': '4.4',
          'technique': 'Coq proof (list induction over the flattened tree, LEB128/fixed-int round trips from C16, vm_compute '
                       'for the finite table theorems) + Gen tables from live construct objects + extracted-model correspondence',
-         'note': 'Trusted: Coq kernel, extraction, harness, tools/gen/gen_c04.py (construct-tree walk), the form table in '
+         'note': 'Not proved in Coq, pinned by the correspondence only (impl = model = spec on every generated in-domain case): the tree walk (iter_children / iter_DIEs with DW_AT_sibling shortcuts, get_parent), reference resolution (get_DIE_from_attribute) and resolved attribute values (strp/strx/addrx/loclistx/rnglistx).  '
+                 'Trusted: Coq kernel, extraction, harness, tools/gen/gen_c04.py (construct-tree walk), the form table in '
                  'Spec/C04Spec.v written from DWARF 2-5.  No axioms.'}
 RULE = ('cases: (a) one_form: one unit, one entry, one attribute of each standard form followed by a sentinel attribute, in '
         'all 32 configurations; (b) world: random unit sequences in .debug_info and .debug_types (versions 2-5, 32/64-bit, '
